@@ -479,7 +479,7 @@ def rule_r6(ctx) -> RuleResult:
     if not ok:
         rr.bad(Finding("C04.R6", X.CORE, X.RECURSE, "t = f'[[:<Template ns>:{name}]]'", "a missing template no longer becomes a link to the template page", tb[0].lineno))
     ea = ctx.fn(X.ARGS)
-    arms = X.kind_arms(X.main_loop(ea))
+    arms = X.kind_arms(X.main_loop(ea), ctx=ctx)
     arm = arms.get("A")
     if arm is None:
         raise AnalysisError("expand_args: argument-reference arm not found")
